@@ -779,7 +779,13 @@ nnls_normal_block3(cholmod_sparse *AtA, cholmod_dense *Atb, int verbose,
         double kkt_tolerance, y_min, residual;
 
         /* XXX: make these settable? */
-        max_iter = 120;                /* Maximum number of iterations */
+        /*
+         * Maximum number of iterations. A stretch of coefficients without
+         * data may be released one per iteration, so a fixed number stops
+         * short of the optimum on larger problems; like the other block
+         * solvers, allow a multiple of the number of unknowns.
+         */
+        max_iter = (3*nvar > 120) ? 3*nvar : 120;
         solves = 0;
         residual_calcs = 0;
         residual = DBL_MAX;
